@@ -14,6 +14,17 @@ pub fn check(r: &Runner, ctx: &mut Ctx, l: &mut Local, rec: &CaseRec) -> Result<
     if rec.sub == "memcheck" {
         return check_memcheck_case(r, l, rec);
     }
+    if rec.sub == "total-history" {
+        // a history on one reused value: only "no call panics" is C01's business here
+        return match super::p_hist::check(r, ctx, l, rec) {
+            Err(v) if v.sig == "C18/panic" => Err(Violation::new(
+                "C01/panic/reused-value",
+                format!("a call in a sequence of calls on one reused Request/Response panicked [{} cfg={:#04x} cap={}; history ops {:?}]", rec.entry.name(), rec.cfg, rec.cap, rec.aux),
+                rec,
+            )),
+            _ => Ok(()),
+        };
+    }
     let hdr_at_end = rec.aux.first().copied().unwrap_or(1) != 0;
     let prefill = if rec.aux.get(1).copied().unwrap_or(0) != 0 { Prefill::Sentinel } else { Prefill::Empty };
     let obs = ctx.run(&Spec {
@@ -243,6 +254,26 @@ fn memcheck_phase(r: &Runner) {
 pub fn run(r: &Runner) {
     if !cfg!(debug_assertions) {
         memcheck_phase(r);
+        if r.stopped() {
+            return;
+        }
+    }
+    // totality on *reused* values: histories of calls on one Request/Response (incl. a
+    // shorter view of memory that an earlier call saw in full) must not panic either; the
+    // debug-assertion build turns an unchecked cursor move into a panic
+    {
+        let prof = Profile { truncate: 30, mutate: 40, ..Profile::DEFAULT };
+        r.par_random(
+            "histories of 1..4 calls on one reused Request/Response (own buffers, slices and shrinking views of the probe's allocation), then a probe: no call may panic",
+            r.amount(600_000, 8_000_000),
+            420,
+            |u: &mut Choice| {
+                let mut rec = super::p_hist::gen_history(u, &prof);
+                rec.sub = std::borrow::Cow::Borrowed("total-history");
+                rec
+            },
+            &|ctx, l, rec| check(r, ctx, l, rec),
+        );
         if r.stopped() {
             return;
         }
